@@ -63,8 +63,7 @@ func (p *pingDelegate) NotifyPingComplete(other *memberlist.Node, rtt time.Durat
 	}
 
 	// Process the remainder of the message as a coordinate.
-	r := bytes.NewReader(payload[1:])
-	dec := codec.NewDecoder(r, &codec.MsgpackHandle{})
+	dec := codec.NewDecoderBytes(payload[1:], &codec.MsgpackHandle{})
 	var coord coordinate.Coordinate
 	if err := dec.Decode(&coord); err != nil {
 		p.serf.logger.Printf("[ERR] serf: Failed to decode coordinate from ping: %v", err)
